@@ -86,6 +86,8 @@ def run(ctx, rep, tier):
             elif cls == "ValueError" and q == "ParseCtx._convert_binary_string":
                 ok = all_callers_catch(model, "_convert_binary_string", "ValueError")
                 rep.check(ok, "C18.a", q, "raise ValueError: caught at every call site", "ValueError from the binary-string decoder escapes at some call site")
+            elif cls in ("ValueError", "ArithmeticError", "ZeroDivisionError", "OverflowError") and q.endswith(".get_literal_result"):
+                rep.ok("C18.a", q, f"raise {cls}: compile-time evaluator - every consumer of a non-total evaluator catches ArithmeticError / ValueError (decided by C18.n)")
             else:
                 rep.bad("C18.a", q, f"raise {cls}", f"`{ast.unparse(r)[:80]}` raises {cls}, which is not an NMFUError: it reaches the user as an internal exception "
                         "(not proven dead by dispatch coverage, not caught by every caller, not triaged)", line=r.lineno)
@@ -873,3 +875,106 @@ _run4 = run
 def run(ctx, rep, tier):
     _run4(ctx, rep, tier)
     _partial_removals(ctx, rep, tier)
+
+
+# ---------------------------------------------------------------------------------------------------------------- C18.n
+def _default_body(f):
+    body = strip_doc(f.body)
+    return all(isinstance(st, (ast.Pass, ast.Raise)) or (isinstance(st, ast.Return) and (st.value is None or isinstance(st.value, ast.Constant))) for st in body)
+
+
+def _value_kind(f):
+    """'value' (returns a value on every path), 'partial' (some path falls off), 'none' (no value-returning return at all)."""
+    vals = [n for n in walk_no_nested(f) if isinstance(n, ast.Return) and n.value is not None and not (isinstance(n.value, ast.Constant) and n.value.value is None)]
+    if not vals:
+        return "none"
+    return "partial" if may_fall_off(f) else "value"
+
+
+def _evaluator_family(ctx, rep, tier):
+    from ..guards import enclosing_conditions
+    model = ctx.model
+    rep.rule("C18.n", "sibling overrides agree on returning a value; partial operators in compile-time evaluators raise only ArithmeticError / ValueError, and every consumer of a "
+                      "non-total evaluator catches those (diagnostics that show a constant must render)")
+    # (n1) sibling agreement inside one hierarchy
+    fam = {}
+    for cn, ci in model.classes.items():
+        root = model.mro(cn)[-1]
+        for mn, f in ci.methods.items():
+            if mn.startswith("__") or any(isinstance(n, (ast.Yield, ast.YieldFrom)) for n in walk_no_nested(f)):
+                continue
+            fam.setdefault((root, mn), []).append((cn, f))
+    n_fam = 0
+    for (root, mn), lst in sorted(fam.items()):
+        real = [(cn, f) for cn, f in lst if not _default_body(f)]
+        kinds = {cn: _value_kind(f) for cn, f in real}
+        good = [cn for cn, k in kinds.items() if k == "value"]
+        if len(good) >= 3 and len(good) >= 0.75 * len(real):
+            n_fam += 1
+            for cn, k in sorted(kinds.items()):
+                rep.check(k == "value", "C18.n", f"{cn}.{mn}", f"returns a value on every path like its {len(good)} siblings",
+                          f"{cn}.{mn} computes but {'never returns a value' if k == 'none' else 'can fall off its end'}, while {len(good)} sibling overrides return one: callers receive None "
+                          "(e.g. a diagnostic that shows a constant sum dies with TypeError)")
+    if n_fam < 3:
+        raise AnalysisError(f"C18.n: only {n_fam} method families with a value-returning majority found (floor 3)")
+    # (n2) partial operators inside evaluators, and their consumers
+    evaluators = {cn: ci.methods["get_literal_result"] for cn, ci in model.classes.items() if "get_literal_result" in ci.methods}
+    total = set()
+    for cn, f in evaluators.items():
+        ops = [n for n in walk_no_nested(f) if isinstance(n, (ast.BinOp, ast.AugAssign)) and isinstance(n.op, (ast.FloorDiv, ast.Mod, ast.Div, ast.LShift, ast.RShift, ast.Pow))]
+        sub = [c for c in calls_in(f, nested=False) if isinstance(c.func, ast.Attribute) and c.func.attr == "get_literal_result"]
+        if not ops and not sub and not _default_body(f):
+            total.add(cn)
+        if _default_body(f):
+            total.add(cn)
+        for o in ops:
+            if isinstance(o.op, (ast.LShift, ast.RShift, ast.Pow)):
+                guard = [st for st in strip_doc(f.body) if isinstance(st, ast.If) and isinstance(st.body[-1], ast.Raise) and raised_class(st.body[-1]) in ("ValueError", "OverflowError", "ArithmeticError")
+                         and st.lineno < o.lineno and re.search(r"0 <= \w+ < \d+", ast.unparse(st.test))]
+                rep.check(bool(guard), "C18.n", f"{cn}.get_literal_result", "shift count range-checked (raises ValueError) before the shift",
+                          "a constant shift by a negative count raises ValueError and by a huge count does not terminate in reasonable time/memory; neither is bounded here", line=o.lineno)
+            else:
+                rep.ok("C18.n", f"{cn}.get_literal_result", f"`{ast.unparse(o)[:40]}` can only raise ZeroDivisionError (an ArithmeticError)", nontrivial=False)
+    n_cons = 0
+    for q, f in pipeline(model).items():
+        if q.split(".")[0] in evaluators and q.endswith(".get_literal_result"):
+            continue
+        for c in calls_in(f, nested=False):
+            if not (isinstance(c.func, ast.Attribute) and c.func.attr == "get_literal_result"):
+                continue
+            n_cons += 1
+            recv = c.func.value
+            what = ast.unparse(c)[:60]
+            # receiver statically a total evaluator?
+            cls = None
+            if isinstance(recv, ast.Name):
+                for a in f.args.args:
+                    if a.arg == recv.id and a.annotation is not None:
+                        cls = ast.unparse(a.annotation).strip("'\"")
+                for test, pol in enclosing_conditions(model, c, f):
+                    m = re.fullmatch(r"isinstance\(%s, (\w+)\)" % re.escape(recv.id), test)
+                    if m and pol:
+                        cls = m.group(1)
+            owner = model.resolve_method(cls, "get_literal_result")[0] if cls in model.classes else None
+            if owner in total:
+                rep.ok("C18.n", q, f"{what}: receiver is a {cls}, whose evaluator is total")
+                continue
+            node, caught = c, False
+            while node in model.parents and node is not f:
+                child, node = node, model.parents[node]
+                if isinstance(node, ast.Try) and any(child is s for s in node.body):
+                    hs = " ".join(ast.unparse(h.type) if h.type is not None else "BaseException" for h in node.handlers)
+                    if re.search(r"\b(ArithmeticError|Exception|BaseException)\b", hs) and re.search(r"\b(ValueError|Exception|BaseException)\b", hs):
+                        caught = True
+            rep.check(caught, "C18.n", q, f"{what}: evaluation errors caught (ArithmeticError, ValueError)",
+                      f"`{what}` evaluates a constant expression that can divide by zero / shift out of range, outside any handler: rendering the diagnostic dies with an internal exception", line=c.lineno)
+    if n_cons < 3:
+        raise AnalysisError(f"C18.n: only {n_cons} consumers of get_literal_result found (floor 3)")
+
+
+_run5 = run
+
+
+def run(ctx, rep, tier):
+    _run5(ctx, rep, tier)
+    _evaluator_family(ctx, rep, tier)
